@@ -476,7 +476,7 @@ def compare_behaviour(b0, b1, skip=()):
         if k in skip or k not in b1:
             continue
         r0, r1 = b0[k], b1[k]
-        if k == 'to_dict':
+        if k == 'to_dict' or (r0[0] == 'ok' and isinstance(r0[1], str)):
             if r0 != r1:
                 return k
         elif not same_outcome(r0, r1):
@@ -802,9 +802,14 @@ def gauss_specs(ctx, n_cases, deep=False):
         n = rng.randint(150, 300) if deep else rng.randint(40, 70)
         A = rs.normal(size=(d, d))
         Z = rs.normal(size=(n, d)) @ (A / np.linalg.norm(A, axis=0)).T
-        labels_kind = ('str', 'int', 'mixed')[i % 3]
-        labels = {'str': [f'c{j}' for j in range(d)], 'int': [3 * j + 1 for j in range(d)],
-                  'mixed': [(f'k{j}' if j % 2 else 10 + j) for j in range(d)]}[labels_kind]
+        labels_kind = ('str', 'int', 'mixed', 'perm', 'default')[i % 5]
+        perm = list(range(d))
+        while d > 1 and perm == list(range(d)):
+            rng.shuffle(perm)
+        labels = {'str': [f'c{j}' for j in range(d)], 'int': [3 * j + 1 for j in range(d)],        # non-contiguous ints
+                  'mixed': [(f'k{j}' if j % 2 else 10 + j) for j in range(d)],
+                  'perm': perm,                                                                      # 0..d-1 in another order
+                  'default': list(range(d))}[labels_kind]
         cols, dist = {}, {}
         choices = ['GaussianUnivariate', 'GammaUnivariate', 'GaussianKDE', 'UniformUnivariate', 'BetaUnivariate',
                    'StudentTUnivariate', 'TruncatedGaussian', 'wrapper', 'const', 'wrapper-const', 'LogLaplace']
@@ -834,7 +839,7 @@ def gauss_specs(ctx, n_cases, deep=False):
             g = GaussianMultivariate(distribution=C['GaussianUnivariate'])
         else:
             g = GaussianMultivariate(distribution=Univariate(candidates=[C['GaussianUnivariate'], C['GaussianKDE']]))
-        if rng.random() < 0.3 and labels_kind == 'int':
+        if labels_kind == 'default' or (rng.random() < 0.3 and labels_kind == 'int'):
             data = df.to_numpy()          # ndarray input: labels 0..d-1
         else:
             data = df
@@ -850,6 +855,14 @@ def gauss_specs(ctx, n_cases, deep=False):
         kde = C['GaussianKDE'] if variant == 'kde' else Univariate(candidates=[C['GaussianKDE']])
         g = GaussianMultivariate(distribution={'ts': kde, 'len': kde, 'x': C['GaussianUnivariate']})
         out.append((('str', 'dict', ('rel-epoch:' + variant, 'rel-offset1:' + variant, 'GaussianUnivariate'), n), g, df, df))
+    # integer labels 0..d-1 in ANOTHER order (a label/position mix-up is silent there), plain Gaussian marginals
+    rs = np.random.RandomState(rng.getrandbits(32))
+    n = rng.randint(40, 70)
+    z = rs.normal(size=(n, 3))
+    z[:, 1] += 0.9 * z[:, 0]
+    z[:, 2] -= 0.5 * z[:, 1]
+    dfp = pd.DataFrame(z, columns=rng.choice([[2, 0, 1], [1, 2, 0], [2, 1, 0]]))
+    out.append((('perm', 'single', ('GaussianUnivariate',) * 3, n), GaussianMultivariate(distribution=C['GaussianUnivariate']), dfp, dfp))
     # fit HISTORIES: the same GaussianMultivariate object fitted before on another table
     for h in (('const>data', 'data>const', 'other-columns') if deep else (rng.choice(['const>data', 'data>const', 'other-columns']),)):
         rs = np.random.RandomState(rng.getrandbits(32))
@@ -887,6 +900,27 @@ def gauss_behaviour(g, X, seed):
     r = outcome(samp)
     out['sample_columns'] = ('ok', np.array([hash(str(c)) % 1000 for c in r[1][1]], dtype=float)) if r[0] == 'ok' else r
     out['sample_seeded'] = ('ok', r[1][0]) if r[0] == 'ok' else r
+    # conditional sampling: one / several conditioned columns, in and out of training order, dict and Series
+    cols = list(g.columns) if g.columns is not None else []
+    if cols:
+        row = X.iloc[0]
+        picks = [('first', cols[:1]), ('last', cols[-1:])]
+        if len(cols) >= 3:
+            picks += [('two-in-order', [cols[0], cols[2]]), ('two-reversed', [cols[-1], cols[0]])]
+        elif len(cols) == 2:
+            picks += [('other', [cols[1]])]
+        for tag, cs in picks:
+            for form in ('dict', 'series'):
+                def cond(cs=cs, form=form):
+                    vals = [float(row[c]) for c in cs]
+                    conditions = dict(zip(cs, vals)) if form == 'dict' else pd.Series(vals, index=cs)
+                    g.set_random_state(seed + 1)
+                    a = g.sample(4, conditions=conditions)
+                    return np.concatenate([np.ravel(a.to_numpy(dtype=float)),
+                                           np.array([hash(str(c)) % 1000 for c in a.columns], dtype=float)])
+                out[f'conditional-sample:{tag}:{form}'] = outcome(cond)
+    # labels of the correlation frame (conditional sampling slices it by label on both axes)
+    out['correlation-labels'] = outcome(lambda: 'index=' + wire(list(g.correlation.index)) + ' columns=' + wire(list(g.correlation.columns)))
     return out
 
 
@@ -1266,7 +1300,7 @@ def run(ctx, lean):
     sections = [('tables', lambda: tie_tables(ctx, lean, tab)),
                 ('univariate', lambda: tie_univariate(ctx, lean, tab, 10 * s)),
                 ('bivariate', lambda: tie_bivariate(ctx, lean, 1 * s)),
-                ('gaussian', lambda: tie_gaussian(ctx, lean, tab, 4 * min(s, 4))),
+                ('gaussian', lambda: tie_gaussian(ctx, lean, tab, 5 * min(s, 4))),
                 ('vine', lambda: tie_vine(ctx, lean, 1 * min(s, 4)))]
     for name, fn in sections:
         try:
@@ -1445,14 +1479,18 @@ def search_gaussian(ctx, deep, found, tab_like):
                 diff = compare_behaviour(b0, gauss_behaviour(o, X, 4), skip)
                 if diff:
                     # attribute the divergence to a marginal when one of them is a known-divergent shape
-                    cls = f'{e}:{diff}-differs' + (':after-refit' if str(key[2][0]).startswith('refit:') else '')
+                    what = 'conditional-sample' if diff.startswith('conditional-sample') else diff
+                    cls = (f'{e}:correlation-labels-differ' if diff == 'correlation-labels' else f'{e}:{what}-differs') + \
+                        (':after-refit' if str(key[2][0]).startswith('refit:') else '')
                     if vname != 'save_load':
                         for u in g.univariates:
                             eq, why = model_predicts_equal_quick(tab_like, u)
                             if not eq:
                                 _, cls = _uni_class_key(u, 'from_dict', diff)
                                 break
-                    _report(ctx, found, e, inp, {'differs': diff}, f'{diff} identical', cls)
+                    b1 = gauss_behaviour(o, X, 4)
+                    _report(ctx, found, e, inp, {'differs': diff, 'original': _brief(b0[diff]), 'rebuilt': _brief(b1.get(diff))},
+                            f'{diff} identical', cls)
     finally:
         shutil.rmtree(tmp, ignore_errors=True)
     return checked
